@@ -183,4 +183,49 @@ example : UnsetPath (⟨.b false, true, [("n".toList, ⟨.b false, false, [("#c"
   refine ⟨⟨.b false, false, [("#c".toList, ⟨.b false, false⟩)]⟩, ⟨.b false, false⟩, ⟨.b false, false⟩, ?_⟩
   decide
 
+/-- a freshly created `:network` / `#channel` child takes its parent's value whenever the class
+re-reads its own `__str__` (`Reparses`, which `string_roundtrip`, `bool_roundtrip`, `int_roundtrip`
+and the list theorems establish) and the loaded file has no line for it -/
+theorem fresh_child_inherits {α : Type} (C : Cls α) (cache : Cache) (full : Str) (v : α)
+    (hr : Reparses C v) (hc : cacheGet cache full = none) :
+    mkValue C cache full v = .made (v, false) false := mkValue_inherits C cache full v hr hc
+
+example : Reparses (ClassId.cls (fun _ => false) (.str .plain) (.s [])) (.s "\"".toList) := by
+  unfold Reparses; decide
+
+/-- `Config reset network`: afterwards the network value is the general value -/
+theorem reset_network_follows {α : Type} (C : Cls α) (B : Str) (s s' : St α) (n : Str)
+    (h : resetNetwork C B s n = (s', .done)) :
+    s'.var.value = s.var.value ∧ resolve s'.var (some n) none = some s.var.value :=
+  resetNetwork_follows C B s s' n h
+
+/-! ### the file always loads -/
+
+/-- the extracted `CONF_FILE_HEADER` consists of complete comment / blank lines -/
+theorem header_table_ok : HeaderOk Gen.Registry.confFileHeader := by
+  unfold HeaderOk SkipLine NoNL; decide +kernel
+
+/-- Whatever `registry.close` writes, `open_registry` reads back: for every list of values with
+reader-safe names (`GoodName`: printable ASCII without blank, not starting with `#`, not ending in
+a backslash), every help text (wrapped into lines by `textwrap`, a parameter: lines without
+CR/LF), every default and every value text, the file loads and the cache holds exactly the
+`str()` text of every value, in order.  (After the fix of the `# Default value:` line, which
+used to be written unescaped.) -/
+theorem file_always_loads (vs : List VSpec) (h : ∀ v ∈ vs, VSpecOk v) :
+    readRegistry (closeText (vs.map VSpec.spec)) = .ok (vs.map fun v => (v.name, v.text)) :=
+  close_loads_aux header_table_ok vs h
+
+example : VSpecOk ⟨some ["help".toList], some "a\nb".toList, "supybot.x.\\:net.#c".toList, "\"".toList⟩ := by
+  unfold VSpecOk GoodName NoNL Plain; decide
+
+/-- end to end for the String class: the line written for `v` under a reader-safe name loads, and
+`set` of the cached text gives `v` back -/
+theorem string_file_roundtrip (pr : Char → Bool) (name : Str) (hn : GoodName name) (v : Str) :
+    readRegistry (closeText [⟨none, none, name, strSerialize pr v⟩]) = .ok [(name, strStr pr v)] ∧
+      strSet pr (strStr pr v) = .ok v := by
+  refine ⟨?_, string_roundtrip pr v⟩
+  have := file_always_loads [⟨none, none, name, strStr pr v⟩]
+    (by intro x hx; simp at hx; subst hx; exact ⟨hn, by intro w hw; simp at hw⟩)
+  simpa [VSpec.spec, strSerialize] using this
+
 end C15
